@@ -337,7 +337,7 @@ def _run_spheres(case):
         if fl == "layered" and i % 2 == 0:
             members.append(Sphere(n=(1.5, 1.4), r=(rad[i] * 0.5, rad[i]), center=tuple(cen[i])))
         else:
-            members.append(Sphere(n=1.5, r=rad[i], center=tuple(cen[i])))
+            members.append(Sphere(n=1.5 + 0.01 * i, r=rad[i], center=tuple(cen[i])))
         outer.append(rad[i])
     cen = np.array(cen, dtype=float)
     exp_pairs, margins = [], []
@@ -363,6 +363,19 @@ def _run_spheres(case):
     for c, r in zip(cen, outer):
         exp |= ((P - c) ** 2).sum(1) < r ** 2
     flags["contains_union"] = bool(np.array_equal(S.contains(P), exp))
+    # the refractive index at a point inside exactly one member is that member's (whichever place it has in the list), outside all: background
+    inside = np.array([((P - c) ** 2).sum(1) < r ** 2 for c, r in zip(cen, outer)])
+    ok_idx, n_idx = True, 0
+    for j in range(min(len(P), 60)):
+        owners = np.nonzero(inside[:, j])[0]
+        if len(owners) > 1:
+            continue
+        got = S.index_at(P[j])
+        want = members[int(owners[0])].index_at(P[j]) if len(owners) else np.array([0.0])
+        n_idx += 1
+        ok_idx &= bool(got is not None and np.array_equal(np.asarray(got).ravel(), np.asarray(want).ravel()))
+    if n_idx:
+        flags["index_at_is_the_owning_members"] = ok_idx
     # default warn is True
     if case["warn"]:
         with warnings.catch_warnings(record=True) as w2:
@@ -434,6 +447,10 @@ def _run_reject(case):
     flags["center_complex"] = rejects(Sphere, n=1.5, r=1.0, center=(1j, 0, 0)) and rejects(Sphere, n=1.5, r=1.0, center=(np.complex128(1 + 1j), 0, 0))
     flags["center_none_component"] = rejects(Sphere, n=1.5, r=1.0, center=(None, 0, 0))
     flags["ellipsoid_negative_semi_axis"] = rejects(Ellipsoid, n=1.5, r=(-1, 1, 1), center=(0, 0, 0))           # (F97)
+    # a centre is an ordered triple of numbers: a set has no order, nan is not a position; a radius is a number
+    flags["centre_set_rejected"] = rejects(Sphere, n=1.5, r=1.0, center={1.0, 2.0, 3.0})
+    flags["centre_nan_rejected"] = rejects(Sphere, n=1.5, r=1.0, center=(float("nan"), 0.0, 0.0)) and rejects(Sphere, n=1.5, r=1.0, center=np.array([0.0, np.nan, 0.0]))
+    flags["radius_nan_rejected"] = rejects(Sphere, n=1.5, r=float("nan"), center=(0, 0, 0)) and rejects(Sphere, n=(1.5, 1.4), r=(0.5, float("nan")), center=(0, 0, 0))
     try:
         Sphere(n=1.5, r=1.0, center=(Uniform(0, 1), 2.0, Uniform(3, 4))); Sphere(n=1.5, r=1.0, center=({"red": 1.0, "green": 2.0}, 0, 0))
         Ellipsoid(n=1.5, r=(Uniform(0.5, 1), 1, 1), center=(0, 0, 0))
